@@ -59,4 +59,19 @@ m1 1001 1.0
 m2 1001 1.0
 """
 
-CORPUS = [('A', A), ('B', B), ('C', C)]
+D = """corpus D: one universe filled twice with the same translation and different rotations
+1 0 -1 fill=1 (1 0 0) imp:n=1
+2 0 1 -2 fill=1 (1 0 0  0 1 0  -1 0 0  0 0 1) imp:n=1
+3 0 2 imp:n=0
+10 1 -1.0 -10 u=1 imp:n=1
+11 2 -2.0 10 u=1 imp:n=1
+
+1 so 1.5
+2 so 4
+10 px 0.25
+
+m1 1001 1.0
+m2 1001 1.0
+"""
+
+CORPUS = [('A', A), ('B', B), ('C', C), ('D', D)]
